@@ -74,8 +74,9 @@ Proof. vm_compute. reflexivity. Qed.
 Definition k_user : kbytes := [116;117;110;110;111;120;58;117;115;101;114;58;49]%N.                      (* tunnox:user:1 *)
 Definition k_cmap : kbytes := [116;117;110;110;111;120;58;99;108;105;101;110;116;95;109;97;112;112;105;110;103;115;58;49]%N. (* tunnox:client_mappings:1 *)
 Definition k_temp : kbytes := [116;117;110;110;111;120;58;116;101;109;112;58;49]%N.                      (* tunnox:temp:1 *)
-Definition cfg_local : cfg := {| has_shared := false; en_pers := true; fix_incr := true; fix_setnx := true |}.
-Definition cfg_pinned : cfg := {| has_shared := true; en_pers := true; fix_incr := false; fix_setnx := false |}.
+(* cfg_local / cfg_shared / cfg_pinned: the code WITHOUT the key-lock repairs (fixes/C14-writeback-key-lock.diff and the three that follow it) *)
+Definition cfg_local : cfg := {| has_shared := false; en_pers := true; fix_incr := true; fix_setnx := true; fix_wb := false; fix_list := false; fix_cwf := false; fix_cre := false |}.
+Definition cfg_pinned : cfg := {| has_shared := true; en_pers := true; fix_incr := false; fix_setnx := false; fix_wb := false; fix_list := false; fix_cwf := false; fix_cre := false |}.
 Definition w_cold : world := tset (init_world empty_store empty_store empty_store) TPers k_user (Some (VStr 1)).
 
 Lemma witness_keys : category GenTables k_user = CPersistent /\ category GenTables k_cmap = CSharedPersistent /\ category GenTables k_temp = CRuntime.
@@ -161,7 +162,7 @@ Definition seq_inits (c : cfg) (k : kbytes) : list world :=
   let e := init_world empty_store empty_store empty_store in
   let ct := cache_tier_for_key GenTables c k in
   [e; tset e TPers k (Some (VList [7%N])); tset (tset e TPers k (Some (VStr 9))) ct k (Some (VStr 9))].
-Definition cfg_shared : cfg := {| has_shared := true; en_pers := true; fix_incr := true; fix_setnx := true |}.
+Definition cfg_shared : cfg := {| has_shared := true; en_pers := true; fix_incr := true; fix_setnx := true; fix_wb := false; fix_list := false; fix_cwf := false; fix_cre := false |}.
 
 Definition kv_alphabet (k : kbytes) : list op := [OSet k (VStr 1); OSet k (VList [5%N]); OGet k; ODel k; OExists k].
 Definition all_cases : list (cfg * kbytes) := [(cfg_local, k_user); (cfg_shared, k_cmap); (cfg_local, k_cmap); (cfg_shared, k_user)].
@@ -207,7 +208,7 @@ Proof.
 Qed.
 
 From TX Require Import Proofs.HybridOne.
-Lemma premises_ok :
+Lemma premises_ok_old :
   two_tier GenTables cfg_local k_temp = false /\
   Forall (thread1_ok k_temp) [TCaller (init_caller 0 [OSet k_temp (VStr 1); OGet k_temp; OIncr k_temp] []); TCaller (init_caller 1 [ODel k_temp; OSetNX k_temp (VStr 2)] []); TWb 0 false] /\
   category GenTables k_user = CPersistent /\ category GenTables k_cmap = CSharedPersistent /\ category GenTables k_temp = CRuntime /\
@@ -249,3 +250,112 @@ Lemma cross_node_warm_local_cache_witness :
   snd (mexec_seq GenTables cfg_local m_empty [(0, OSet k_user (VStr 1)); (1, OSet k_user (VStr 2)); (0, OGet k_user); (2, OGet k_user)])
   = [Some ROk; Some ROk; Some (RVal (VStr 1)); Some (RVal (VStr 2))].
 Proof. vm_compute. reflexivity. Qed.
+
+(* ==== the repaired code (all of fixes/C14-writeback-key-lock, -list-rmw-key-lock, -failed-cache-write-invalidate, -cache-read-error) ==== *)
+Definition cfg_rep (sh pe : bool) : cfg :=
+  {| has_shared := sh; en_pers := pe; fix_incr := true; fix_setnx := true; fix_wb := true; fix_list := true; fix_cwf := true; fix_cre := true |}.
+Definition all_cases_r : list (cfg * kbytes) := [(cfg_rep false true, k_user); (cfg_rep true true, k_cmap); (cfg_rep false true, k_cmap); (cfg_rep true true, k_user)].
+
+(* sequential behaviour, small scope, repaired code: now ALSO from the cold-cache state with list operations *)
+Lemma sequential_small_scope_repaired :
+  forallb (fun ck => forallb (fun w => forallb (seq_ok (fst ck) (snd ck) w) (seqs 3 (seq_alphabet (snd ck)))) (seq_inits (fst ck) (snd ck)))
+          all_cases_r = true.
+Proof. vm_compute. reflexivity. Qed.
+
+(* the witness schedules of the refuted statements, replayed on the repaired code, are harmless: one AppendToList on a cold cache, then Get *)
+Lemma list_cold_cache_repaired :
+  snd (exec_seq GenTables (cfg_rep true true) w_cold_list [OAppend k_cmap 8; OGet k_cmap]) = [Some ROk; Some (RVal (VList [7%N; 8%N]))].
+Proof. vm_compute. reflexivity. Qed.
+
+Lemma cross_node_small_scope_repaired :
+  forallb (fun ck => forallb (fun h => mfresh_ok (fst ck) (snd ck) m_empty h None 9) (mseqs 4 (mstep_alphabet (snd ck)))) all_cases_r = true.
+Proof. vm_compute. reflexivity. Qed.
+
+(* ---- single tier-call failures (fixes (c) and (d)) ---- *)
+Definition exec_op_f (c : cfg) (w : world) (o : op) (fl : list bool) : world * option res :=
+  let '(cl, w') := run_caller GenTables c 14 (init_caller 0 [o] fl) w in
+  match cpc cl, ops cl, log cl with
+  | PIdle, [], [r] => (land_all (length (w_spawned w)) w', Some r)
+  | _, _, _ => (w', None)
+  end.
+Definition fault_at (p : nat) : list bool := map (fun i => Nat.eqb i p) (seq 0 10).
+Definition ok_res (r : option res) : bool := match r with Some ROk => true | _ => false end.
+Definition err_res (r : option res) : bool := match r with Some RErr => true | _ => false end.
+
+(* (c) a write that reports success is what the next read returns, whichever single tier call of it failed; the state stays coherent *)
+Definition write_then_read_ok (c : cfg) (k : kbytes) (w : world) (o : op) (p : nat) : bool :=
+  let '(w1, r) := exec_op_f c w o (fault_at p) in
+  negb (ok_res r)
+  || (ores_eqb (snd (exec_op GenTables c w1 (OGet k))) (Some (val_res (fst (spec_op (visible GenTables c w k) o)))) && coherentb GenTables c w1 k).
+Lemma failed_cache_write_small_scope :
+  forallb (fun ck => forallb (fun w => forallb (fun o => forallb (write_then_read_ok (fst ck) (snd ck) w o) (seq 0 8))
+                                               [OSet (snd ck) (VStr 1); OSet (snd ck) (VList [5%N]); OAppend (snd ck) 8; ORemove (snd ck) 7; ODel (snd ck)])
+                             (seq_inits (fst ck) (snd ck)))
+          all_cases_r = true.
+Proof. vm_compute. reflexivity. Qed.
+(* unrepaired code: Set(k, v1) over a warm cache holding v9, the cache write (second tier call) fails: Set returns nil, Get returns v9 *)
+Lemma failed_cache_write_witness :
+  let w := nth 2 (seq_inits cfg_local k_user) (init_world empty_store empty_store empty_store) in
+  let '(w1, r) := exec_op_f cfg_local w (OSet k_user (VStr 1)) (fault_at 1) in
+  (r, snd (exec_op GenTables cfg_local w1 (OGet k_user))) = (Some ROk, Some (RVal (VStr 9))).
+Proof. vm_compute. reflexivity. Qed.
+
+(* (d) cache-only keys (runtime key; persistent-class keys with persistence disabled): an operation whose cache READ fails reports an
+   error — never "not found" — and leaves the stored value untouched *)
+Definition read_fault_ok (c : cfg) (k : kbytes) (w : world) (o : op) : bool :=
+  let '(w1, r) := exec_op_f c w o (fault_at 0) in
+  err_res r && ovalue_eqb (visible GenTables c w1 k) (visible GenTables c w k).
+Definition one_tier_cases : list (cfg * kbytes) := [(cfg_rep false false, k_temp); (cfg_rep true true, k_temp); (cfg_rep false false, k_user); (cfg_rep true false, k_cmap)].
+Lemma cache_read_error_small_scope :
+  forallb (fun ck => forallb (fun v => forallb (read_fault_ok (fst ck) (snd ck)
+                                                  (tset (init_world empty_store empty_store empty_store) (cache_tier_for_key GenTables (fst ck) (snd ck)) (snd ck) (Some v)))
+                                               [OGet (snd ck); OExists (snd ck); OAppend (snd ck) 8; ORemove (snd ck) 7])
+                             [VList [7%N]; VStr 3])
+          one_tier_cases = true.
+Proof. vm_compute. reflexivity. Qed.
+(* unrepaired code: the failing read is reported as "not found", and AppendToList then overwrites the whole list with the new element *)
+Lemma cache_read_error_witness :
+  let w := tset (init_world empty_store empty_store empty_store) TLocal k_temp (Some (VList [7%N])) in
+  (snd (exec_op_f cfg_local w (OGet k_temp) (fault_at 0)),
+   snd (exec_op_f cfg_local w (OAppend k_temp 8) (fault_at 0)),
+   visible GenTables cfg_local (fst (exec_op_f cfg_local w (OAppend k_temp 8) (fault_at 0))) k_temp)
+  = (Some RNotFound, Some ROk, Some (VList [8%N])).
+Proof. vm_compute. reflexivity. Qed.
+
+From TX Require Import Proofs.HybridLock.
+Lemma list_updates_repaired :
+  forall (c : cfg) (k : kbytes) (w : world) (ts : list thread) (sched : list nat),
+  fix_incr c = true -> fix_setnx c = true -> fix_wb c = true -> fix_list c = true ->
+  w_spawned w = [] -> w_hist w = [] -> w_locks w k = false -> coherent GenTables c w k ->
+  Forall (fun t => match t with
+                   | TCaller cl => cpc cl = PIdle /\ cur cl = None /\ held cl = false /\ faults cl = [] /\
+                                   Forall (fun o => op_key o = k /\ reads_list o = true) (ops cl)
+                   | TWb _ _ => True end) ts ->
+  let r := hrun GenTables c w ts sched in
+  exists st,
+    linearized (visible GenTables c w k) (w_hist (fst r)) st /\
+    (w_locks (fst r) k = false -> visible GenTables c (fst r) k = st).
+Proof.
+  intros c k w ts sched Hi Hn Hw Hl Hs Hh HL Hco Hts.
+  assert (Hts' : Forall (idle_thread GenTables c k) ts).
+  { apply Forall_forall. intros t Ht. rewrite Forall_forall in Hts. specialize (Hts t Ht). destruct t as [cl|]; cbn in *; [|exact I].
+    destruct Hts as (A & B & C & D & E). repeat split; auto.
+    apply Forall_forall. intros o Ho. rewrite Forall_forall in E. destruct (E o Ho) as [E1 E2]. split; [exact E1|].
+    intros _. destruct o; cbn in E2 |- *; congruence. }
+  destruct (lock_all_schedules_spec GenTables c Hi Hn Hw Hl k w ts sched Hs Hh HL Hco Hts') as (st & H1 & H2 & _).
+  exists st. split; [exact H1|]. intros EL. exact (proj1 (H2 EL)).
+Qed.
+
+Lemma premises_ok :
+  Forall (idle_thread GenTables (cfg_rep true true) k_cmap)
+         [TCaller (init_caller 0 [OGet k_cmap; OAppend k_cmap 8; ODel k_cmap] []); TCaller (init_caller 1 [OSet k_cmap (VList [1%N]); ORemove k_cmap 8] []); TWb 0 false] /\
+  coherent GenTables (cfg_rep true true) w_cold_list k_cmap /\
+  two_tier GenTables cfg_local k_temp = false /\
+  Forall (thread1_ok k_temp) [TCaller (init_caller 0 [OSet k_temp (VStr 1); OGet k_temp; OIncr k_temp] []); TCaller (init_caller 1 [ODel k_temp; OSetNX k_temp (VStr 2)] []); TWb 0 false] /\
+  category GenTables k_user = CPersistent /\ category GenTables k_cmap = CSharedPersistent /\ category GenTables k_temp = CRuntime /\
+  category GenTables k_next_id = CShared.
+Proof.
+  split; [|split; [|exact premises_ok_old]].
+  - repeat constructor; cbn; try reflexivity; intros _; reflexivity.
+  - intros _. left. vm_compute. reflexivity.
+Qed.
